@@ -35,12 +35,10 @@ from typing import Any, Dict, List, Optional, Tuple
 from cryptography.exceptions import InvalidSignature
 from cryptography.hazmat.primitives import hashes as chashes
 from cryptography.hazmat.primitives import serialization as cser
-from cryptography.hazmat.primitives.asymmetric import dsa as cdsa
 from cryptography.hazmat.primitives.asymmetric import ec as cec
 from cryptography.hazmat.primitives.asymmetric import ed448 as ced448
 from cryptography.hazmat.primitives.asymmetric import ed25519 as ced25519
 from cryptography.hazmat.primitives.asymmetric import padding as cpadding
-from cryptography.hazmat.primitives.asymmetric import rsa as crsa
 from cryptography.hazmat.primitives.asymmetric.utils import (
     decode_dss_signature, encode_dss_signature)
 from hypothesis import strategies as st
